@@ -24,11 +24,11 @@ def one(path):
 
     def _alarm(signum, frame):
         raise _Hang()
-    signal.signal(signal.SIGALRM, _alarm)
-    signal.alarm(int(getattr(hm, 'REPLAY_TIMEOUT', 20)))
+    signal.signal(signal.SIGPROF, _alarm)
+    signal.setitimer(signal.ITIMER_PROF, int(getattr(hm, 'REPLAY_TIMEOUT', 20)))
     try:
         r = hm.replay(doc['obligation'], doc.get('label'), w)
-        signal.alarm(0)
+        signal.setitimer(signal.ITIMER_PROF, 0)
     except _Hang:
         r = {'violated': bool(getattr(hm, 'HANG_IS_VIOLATION', False)), 'signature': 'nontermination',
              'detail': 'the real code did not terminate within the replay time limit on this input'}
